@@ -3,9 +3,17 @@ from harness import common, tstate, tsprop
 
 PROP = 'C07'
 DRIVER = 'TorState'
-LEAN_TARGETS = ['TxV.Props.C07', 'TxV.Props.C07b']
-PROP_MODULES = ['TxV.Props.C07', 'TxV.Props.C07b']
+LEAN_TARGETS = ['TxV.Props.C07', 'TxV.Props.C07b', 'TxV.Props.SourceTie']
+PROP_MODULES = ['TxV.Props.C07', 'TxV.Props.C07b', 'TxV.Props.SourceTie']
 AUDIT = 'Audit/C07.lean'
+
+
+def extract():
+    # the state words, event map and bootstrap queries of the source, for the tie lemmas in Props/SourceTie.lean
+    from harness import extract as _x
+    return _x.state_table()
+
+
 ANCHORS = ['txtorcon/torstate.py', 'txtorcon/circuit.py', 'txtorcon/stream.py']
 RULE = ('real TorState bootstrapped over the real protocol against the fake Tor: a snapshot of 0-4 circuits and 0-2 streams through GETINFO '
         'circuit-status / stream-status, then 10-60 operations: CIRC/STREAM events drawn from a generator of what Tor can emit over 6 circuit ids and '
